@@ -584,7 +584,31 @@ fn gen_history(rng: &mut SplitMix, focus: &str) -> History {
         sources.push(ip.to_string());
     }
     let n_pid = 1 + rng.usize(4);
-    let peer_ids = (0..n_pid).map(|_| vcore::hex(&rng.arr20())).collect();
+    // related peer ids, as real clients produce them: "-XX1234-" + random tail; a restarted client keeps the first
+    // eight bytes, an upgraded one keeps nothing, and near-misses differ in a single byte at either end
+    let base = {
+        let mut b = rng.arr20();
+        if rng.chance(2, 3) {
+            b[..8].copy_from_slice(*rng.pick(&[b"-TR2940-", b"-qB4250-", b"-UT355S-", b"-lt0D80-"]));
+        }
+        b
+    };
+    let peer_ids = (0..n_pid)
+        .map(|i| {
+            let mut b = base;
+            if i > 0 {
+                match rng.below(6) {
+                    0 => b = rng.arr20(),
+                    1 => b[8..].copy_from_slice(&rng.arr20()[8..]),
+                    2 => b[..8].copy_from_slice(&rng.arr20()[..8]),
+                    3 => b[19] ^= 1,
+                    4 => b[0] ^= 1,
+                    _ => b[8] ^= 0x20,
+                }
+            }
+            vcore::hex(&b)
+        })
+        .collect();
     let ages: &[u32] = if focus == "C10" {
         &[0, 1, 2, 3, 7, 1800, u32::MAX / 2, u32::MAX - 1, u32::MAX]
     } else {
